@@ -174,6 +174,10 @@ func checkC11(ctx *pbt.Ctx, c c11Case) error {
 	if err != nil {
 		return err
 	}
+	if bout.Hung && !bout.Crashed {
+		ctx.Label("no-result-within-bound-twice(C08)")
+		return nil // termination is C08's statement; this property cannot judge a run without a result
+	}
 	if bout.Crashed || bout.Hung {
 		ctx.Label("base-query-crashes(C03/C08)")
 		return nil
@@ -248,6 +252,10 @@ func checkC11(ctx *pbt.Ctx, c c11Case) error {
 	out, err := runBQL(BQLReq{Graphs: datasetGraphs(c.Data), Runs: []RunSpec{{Text: text}}})
 	if err != nil {
 		return err
+	}
+	if out.Hung && !out.Crashed {
+		ctx.Label("no-result-within-bound-twice(C08)")
+		return nil // termination is C08's statement; this property cannot judge a run without a result
 	}
 	if out.Crashed || out.Hung {
 		return fmt.Errorf("executing %q crashed=%v hung=%v: %s", text, out.Crashed, out.Hung, lastLines(out.Stderr, 10))
